@@ -24,7 +24,7 @@ func TestVerifC17Marshaler(t *testing.T) {
 	rep := verifkit.NewReport("C17", "c17-marshaler")
 	defer rep.Finish(t)
 	rep.Rule = "two OrbitDBMessageMarshaler instances sharing a topic key, each with its own RotationInterval (1 s .. 1 h) on the virtual clock: seeded histories of {advance, Marshal on one + Unmarshal on the other (both directions)} " +
-		"where the peers registered in the same or in different periods; a message marshalled at t must be unmarshalled by the other peer at t (same period) and carry address and sender device. distinct = histories"
+		"where the peers registered in the same or in different periods; a message marshalled at t must be unmarshalled by the other peer at t (same period) and carry address and sender device; the same payload must be refused by marshalers that own the box key but whose rotation registered the topic under another seed, only another topic, or nothing. distinct = histories"
 	nh := verifkit.Pick(120, 1200)
 	for h := 0; h < nh; h++ {
 		rng := verifkit.Rand(fmt.Sprintf("c17-msh-%d", h))
@@ -126,6 +126,26 @@ func TestVerifC17Marshaler(t *testing.T) {
 				rep.Violate("C17/marshal-sender-lost", "the sender device is not recorded after unmarshalling", wit)
 			}
 			rep.Count("messages_exchanged", 1)
+			// the same payload reaches devices that own the box key of the topic but whose rotation knows nothing of this
+			// value: the topic registered under another seed, or only another topic registered. Holding the key that opens
+			// the box does not make the rotation value known: both refuse.
+			otherSeed := make([]byte, 32)
+			rng.Read(otherSeed)
+			for name, reg := range map[string]func(x *side){
+				"same-box-key/topic-registered-under-another-seed": func(x *side) { x.ri.RegisterRotation(now, topic, otherSeed) },
+				"same-box-key/only-another-topic-registered":      func(x *side) { x.ri.RegisterRotation(now, topic+"/other", key) },
+				"same-box-key/nothing-registered":                 func(x *side) {},
+			} {
+				x := mkSide()
+				reg(x)
+				var got iface.MessageExchangeHeads
+				rep.Eval(1)
+				if err := x.m.Unmarshal(payload, &got); err == nil {
+					rep.Violate("C17/foreign-value-accepted/marshaler", "a head-exchange message whose rotation value the receiver's rotation does not know was accepted ("+name+")", wit)
+				} else {
+					rep.Count("foreign_values_refused_by_marshaler", 1)
+				}
+			}
 		}
 		rep.Distinct(fmt.Sprintf("h%d:%v", h, trace))
 		if h == 0 {
